@@ -26,7 +26,18 @@ def runLim (K : List Val) (F : FnDef → Option (List Instr)) : Nat → FSt → 
     if s.stk.length + 300 ≥ 4096 || s.callers.length + 2 ≥ 4096 then .limit else
     match fstep K F s with
     | some s' => runLim K F fuel s'
-    | none => .stuck s
+    | none =>
+      -- a builtin call the pure model does not cover (`unmodelled`: I/O, float formatting, …) is not judged
+      (match fetch s.act.code s.act.pc with
+       | some (.call n) =>
+         (match s.stk[n]? with
+          | some (.builtin name) =>
+            (match Builtins.call name ((s.stk.take n).reverse.map (view s.a)) with
+             | .unmodelled => .limit
+             | .panic _ => .limit
+             | _ => .stuck s)
+          | _ => .stuck s)
+       | _ => .stuck s)
 
 def run (p : Program) : String :=
   match ofTops 400 ⟨0, [], []⟩ 0 p.stmts with
@@ -43,10 +54,11 @@ def run (p : Program) : String :=
     let linesS := natList lines
     let poolS := joinWith "|" (pool.map encConst)
     let g0 : List Val := List.replicate rs.ng .null
-    let gsS (g : List Val) : String := joinWith "," (g.map encVal)
+    -- the globals are printed with the containers they refer to expanded (`view` = `reify` of the final heap)
+    let gsS (a : Heap) (g : List Val) : String := joinWith "," (g.map fun v => encVal (view a v))
     -- the main program runs as a closure without captured values (`VM::new`): closure object 0
-    let model := match runLim pool (codeT T) 400000 ⟨⟨code, ⟨[], [], 0, 0, 0⟩, 0, 0, 0⟩, [], g0, [[]], []⟩ with
-      | .done st => s!"code={codeS} lines={linesS} consts=[{poolS}] ok g=[{gsS st.g}] last=* sp={st.stk.length}"
+    let model := match runLim pool (codeT T) 400000 ⟨⟨code, ⟨[], [], 0, 0, 0⟩, 0, 0, 0⟩, [], g0, [[]], {}, []⟩ with
+      | .done st => s!"code={codeS} lines={linesS} consts=[{poolS}] ok g=[{gsS st.a st.g}] last=* sp={st.stk.length}"
       | .stuck st =>
         -- a runtime error reports `lines[ip]` of the running frame's instructions
         let ln := if st.callers.isEmpty then (lines[st.act.pc]?).getD 0 else (st.act.fd.lines[st.act.pc]?).getD 0
@@ -54,8 +66,8 @@ def run (p : Program) : String :=
       | .oof => s!"code={codeS} lines={linesS} consts=[{poolS}] oof"
       | .limit => "MODEL-SKIP"
     -- the reference evaluation (specification): the final globals, or a runtime error
-    let spec := match evalT (phiT T) 20000 g0 [[]] T with
-      | some (g, _) => s!"m code=* lines=* consts=* ok g=[{gsS g}] last=* sp=0"
+    let spec := match evalT (phiT T) 20000 g0 [[]] {} T with
+      | some (g, _, a) => s!"m code=* lines=* consts=* ok g=[{gsS a g}] last=* sp=0"
       | none => "m code=* lines=* consts=* rterr *"
     if model == "MODEL-SKIP" then result "MODEL-SKIP" "any" else result model spec
 
